@@ -26,7 +26,7 @@ SPEC = {
                  "(whitespace sets, int()/float() grammar, ipaddress grammar, bytes.fromhex/base64 behaviour on the modelled "
                  "shapes). User regexes are an oracle argument (semantics of re.match not modelled). No axioms."),
         "design_ref": "DESIGN.md section 6 C05"},
-    "streams": ["fields"],
+    "streams": ["fields", "filefields"],
     "witnesses": ["F10", "F11", "F12", "F14", "F38", "F39"],
     "rule": ("deterministic matrix: every modelled class x a curated option lattice (each option absent / at each boundary; "
              "required; strip None/True/char sets; case None/lower/upper; length windows; choices; patterns; prefix bounds "
